@@ -308,7 +308,7 @@ func (c *c14) opChain() {
 		return out, err
 	}
 	var err error
-	if guardLivelock(func() { err = gmsl.VerifyEventAuthChain(context.Background(), target, prov, uidFor) }) {
+	if guard(r, "VerifyEventAuthChain", func() { err = gmsl.VerifyEventAuthChain(context.Background(), target, prov, uidFor) }) {
 		r.Logf("  VerifyEventAuthChain aborted: provider asked without bound (off-contract provider)")
 		return
 	}
@@ -474,7 +474,10 @@ func (c *c14) opAtState() {
 	}
 	r.Logf("op auth_at_state of %s (%s) allowValidation=%v answer=%q cancelAt=%d", c.desc(target.EventID()), kind, allowValidation, a.comment, sp.cancelAt)
 	model := c.modelAtState(target, a, allowValidation)
-	err := gmsl.VerifyAuthRulesAtState(ctx, sp, target, allowValidation, uidFor)
+	var err error
+	if guard(r, "VerifyAuthRulesAtState", func() { err = gmsl.VerifyAuthRulesAtState(ctx, sp, target, allowValidation, uidFor) }) {
+		return
+	}
 	r.Logf("  VerifyAuthRulesAtState -> ok=%v ; model fast=%v allowed=%v err=%q calls=%s", err == nil, model.fast, model.allowed, model.err, strings.Join(sp.log, ","))
 	if kind != "honest" || a.comment != "" || sp.fired {
 		r.Nontriv = true
@@ -737,7 +740,7 @@ func (c *c14) opLoad() {
 	loader := gmsl.NewEventsLoader(rm.ver, c.ver, sp, c.prov.fn, false)
 	var res []gmsl.EventLoadResult
 	var err error
-	if guardLivelock(func() { res, err = loader.LoadAndVerify(ctx, raws, order, uidFor) }) {
+	if guard(r, "LoadAndVerify", func() { res, err = loader.LoadAndVerify(ctx, raws, order, uidFor) }) {
 		r.Logf("  LoadAndVerify aborted: provider asked without bound (off-contract provider)")
 		return
 	}
@@ -751,13 +754,15 @@ func (c *c14) opLoad() {
 	var line []string
 	var seq []gmsl.PDU
 	gotCount := map[string]int{}
-	nilEvents := 0
+	nilEvents, emptyRes := 0, 0
 	for _, x := range res {
 		if x.Event == nil {
-			nilEvents++
 			if x.Error == nil {
-				r.Violate("C14", "load_empty_result", "empty", "LoadAndVerify returned a result with neither an event nor an error (%d inputs, %d malformed)", len(raws), c.countMalformed(b))
+				line = append(line, "EMPTY")
+				emptyRes++
+				continue
 			}
+			nilEvents++
 			line = append(line, "parse_error")
 			continue
 		}
@@ -766,6 +771,20 @@ func (c *c14) opLoad() {
 		line = append(line, shortID(x.Event.EventID())+"="+classOf(x.Error))
 	}
 	r.Logf("  LoadAndVerify(%d inputs, byAuth=%v) -> %s", len(raws), byAuth, strings.Join(line, " "))
+	if emptyRes > 0 {
+		dups := 0
+		for _, n := range b.listed() {
+			if n > 1 {
+				dups += n - 1
+			}
+		}
+		sig := "no_duplicate_input"
+		if dups > 0 {
+			sig = "duplicate_input"
+		}
+		r.Violate("C14", "load_empty_result", sig, "LoadAndVerify returned %d result(s) with neither an event nor an error (%d inputs, %d malformed, %d duplicate listings)", emptyRes, len(raws), c.countMalformed(b), dups)
+		return // known finding: the remaining comparisons assume one result per input
+	}
 	r.Check(nilEvents == c.countMalformed(b), "C14", "load_parse_class", "malformed", "LoadAndVerify reported %d unparsable inputs, %d were malformed", nilEvents, c.countMalformed(b))
 	inCount := map[string]int{}
 	for _, e := range b.entries {
@@ -821,6 +840,16 @@ func (c *c14) opLoad() {
 		}
 		r.Violate("C14", "load_wrong_class", w.class+"->"+got, "%s: first failing stage is %s but LoadAndVerify classified it %s (%v)", c.desc(id), w.class, got, x.Error)
 	}
+}
+
+func (b *batch) listed() map[string]int {
+	m := map[string]int{}
+	for _, e := range b.entries {
+		if e.ev != nil {
+			m[e.id()]++
+		}
+	}
+	return m
 }
 
 func (c *c14) countMalformed(b *batch) int {
@@ -903,7 +932,7 @@ func (c *c14) opBackfill() {
 	limit := t.Range(1, 12)
 	var got []gmsl.PDU
 	var err error
-	if guardLivelock(func() {
+	if guard(r, "RequestBackfill", func() {
 		got, err = gmsl.RequestBackfill(ctx, rm.J().Name, bf, c.ver, rm.roomID, rm.ver, []string{rm.tip.id}, limit, uidFor)
 	}) {
 		return
